@@ -300,6 +300,22 @@ def _coherence(g, dist, fam, params, rd, discrete, L, viol, stats):
     def cdf_from_L(x):
         return float(dist.prob_mw(_interval(g, L, x)))
 
+    # probabilities of intervals are probabilities too: never negative, never NaN -- also far out in the tails, where they
+    # are the difference of two cumulative values next to 0 or 1 (get_ensemble_prob takes their logarithm)
+    try:
+        width = max(1.0, 0.37 * (hi - lo) / 8.0)
+        starts = [hi * f for f in (1.0, 1.3, 2.0, 3.5, 6.0)] + [lo - width * k for k in (1, 3)]
+        for a_ in starts:
+            pi = float(dist.prob_mw(_interval(g, float(a_), float(a_) + width)))
+            stats["tail_intervals"] = stats.get("tail_intervals", 0) + 1
+            if not (pi >= 0) or not math.isfinite(pi):
+                viol("negative_or_nonfinite_probability", f"P({float(a_)!r} < M <= {float(a_) + width!r}) is reported as {pi!r}", ["tail_interval"])
+                break
+    except SimAbort:
+        raise
+    except Exception as exc:
+        viol("reported_law_raises", f"prob_mw(tail interval) raised {exc!r}")
+
     try:
         acc = g.mol_prob.RememberAdd(L)
         for frac in (0.08, 0.3, 0.5, 0.52, 0.75, 0.97):
